@@ -618,7 +618,8 @@ class StateEngine(object):
             )
 
         state_machine_type = state_machine.get("type")
-        if state_machine_type == "STANDARD":
+        if (state_machine_type == "STANDARD"
+                and self.executions.get(execution_arn) != None):
             execution_detail = self.executions[execution_arn]
             state_machine_arn = execution_detail["stateMachineArn"]
         else:
@@ -626,7 +627,9 @@ class StateEngine(object):
             For "EXPRESS" workflows we don't store the execution metadata in
             self.executions, however the missing information for the current
             execution is actually available in the execution context or can
-            be derived from the execution ARN.
+            be derived from the execution ARN. The same applies to a "STANDARD"
+            execution whose stored metadata has been lost because the
+            StateEngine was restarted, in that case it is stored again below.
             """
             # Derive missing fields from execution_arn
             split = execution_arn.rpartition(':')
@@ -647,6 +650,11 @@ class StateEngine(object):
                 "status": "RUNNING",
                 "stopDate": None,
             }
+
+            if state_machine_type == "STANDARD":
+                self.executions[execution_arn] = execution_detail
+                if self.execution_history.get(execution_arn) == None:
+                    self.execution_history[execution_arn] = []
 
         execution_detail["stopDate"] = time.time()
 
@@ -1489,7 +1497,8 @@ class StateEngine(object):
             if error_type == "States.TaskFailed":
                 boiler_plate = ""
             elif state_machine_type == "STANDARD":
-                id = len(self.execution_history[execution_arn])
+                # After a restart the history might not have been re-created yet.
+                id = len(self.execution_history.get(execution_arn) or [])
                 boiler_plate = (
                     "An error occurred while executing the state "
                     "\"{}\" (entered at the event id #{}). "
